@@ -383,4 +383,143 @@ Section Proofs.
         apply IHtg. intros kb Hkb. apply Hsub. right; assumption. }
       rewrite Hf by auto. reflexivity.
   Qed.
+
+  (* ---------------------------------------------------------------- Emplace, replace mode (FileSync) *)
+  (* the destination file: plain lines and tag pairs WITH their bodies *)
+  Inductive bitem := BPlain (l : line) | BBlock (o : line) (b : list line) (c : line).
+
+  Definition bflatten (B : list bitem) : list line :=
+    flat_map (fun it => match it with BPlain l => [l] | BBlock o b c => o :: b ++ [c] end) B.
+
+  (* the specification of the synchronisation: bodies of shared pairs replaced, everything else verbatim *)
+  Definition synced (tg : tags) (B : list bitem) : list line :=
+    flat_map (fun it => match it with
+                        | BPlain l => [l]
+                        | BBlock o b c => match lookup (kof o) tg with
+                                          | Some a => o :: a ++ [c]
+                                          | None => o :: b ++ [c]
+                                          end
+                        end) B.
+
+  Definition wf_bitem (tg : tags) (it : bitem) : Prop :=
+    match it with
+    | BPlain l => kpfx (kof l) = false
+    | BBlock o b c => kof c = kof o /\ (forall l, In l b -> kpfx (kof l) = false) /\
+                      (ODict.mem keqb (kof o) tg = true -> sub_of (kof c) o = true /\ kpfx (kof c) = true)
+    end.
+
+  Lemma lookup_nopfx tg l : keys_pfx tg -> kpfx (kof l) = false -> lookup (kof l) tg = None.
+  Proof. intros Hk Hl. apply lookup_None. intros Hin. apply Hk in Hin. congruence. Qed.
+
+  Lemma rstep_none tg f tl out used l : lookup (kof l) tg = None ->
+    estep true tg (mkE f tl out used) l
+    = mkE f tl (if negb f || (match tl with Some t => sub_of (kof l) t | None => false end) && kpfx (kof l)
+                then out ++ [l] else out) used.
+  Proof. intros H. unfold emplace_step. cbn [e_found e_tagline e_out e_used]. rewrite H. reflexivity. Qed.
+
+  Lemma rfold_skip tg o out used (b : list line) : keys_pfx tg ->
+    (forall l, In l b -> kpfx (kof l) = false) ->
+    fold_left (estep true tg) b (mkE true (Some o) out used) = mkE true (Some o) out used.
+  Proof.
+    intros Hk. induction b as [|l b IH]; intros Hb; [reflexivity|]. cbn [fold_left].
+    rewrite rstep_none by (apply lookup_nopfx; [assumption|apply Hb; left; reflexivity]).
+    rewrite (Hb l (or_introl eq_refl)). cbn [negb orb andb]. rewrite andb_false_r.
+    apply IH. intros; apply Hb; right; assumption.
+  Qed.
+
+  Lemma rfold_keep tg tl out used (b : list line) : keys_pfx tg ->
+    (forall l, In l b -> kpfx (kof l) = false) ->
+    fold_left (estep true tg) b (mkE false tl out used) = mkE false tl (out ++ b) used.
+  Proof.
+    intros Hk. revert out. induction b as [|l b IH]; intros out Hb; [rewrite app_nil_r; reflexivity|].
+    cbn [fold_left].
+    rewrite rstep_none by (apply lookup_nopfx; [assumption|apply Hb; left; reflexivity]).
+    cbn [negb orb]. rewrite IH by (intros; apply Hb; right; assumption).
+    rewrite <- app_assoc. reflexivity.
+  Qed.
+
+  Lemma sync_items tg B : keys_pfx tg -> Forall (wf_bitem tg) B ->
+    forall tl out used, exists tl' used',
+    fold_left (estep true tg) (bflatten B) (mkE false tl out used) = mkE false tl' (out ++ synced tg B) used'.
+  Proof.
+    intros Hk Hwf. induction Hwf as [|it B Hit Hwf IH]; intros tl out used.
+    - exists tl, used. simpl. rewrite app_nil_r. reflexivity.
+    - destruct it as [l|o b c].
+      + change (bflatten (BPlain l :: B)) with (l :: bflatten B).
+        change (synced tg (BPlain l :: B)) with ([l] ++ synced tg B).
+        cbn [fold_left]. simpl in Hit.
+        rewrite rstep_none by (apply lookup_nopfx; assumption). cbn [negb orb].
+        destruct (IH tl (out ++ [l]) used) as [tl' [used' H]]. exists tl', used'. rewrite H.
+        rewrite <- app_assoc. reflexivity.
+      + destruct Hit as (Hkc & Hb & Hshared).
+        replace (bflatten (BBlock o b c :: B)) with ((o :: b) ++ c :: bflatten B)
+          by (unfold bflatten; simpl; rewrite <- app_assoc; reflexivity).
+        rewrite fold_left_app. cbn [fold_left]. unfold ODict.mem in Hshared.
+        destruct (lookup (kof o) tg) as [a|] eqn:El.
+        * destruct (Hshared eq_refl) as [Hs Hp].
+          assert (E1 : estep true tg (mkE false tl out used) o = mkE true (Some o) ((out ++ [o]) ++ a) (used ++ [kof o])).
+          { unfold emplace_step. cbn [e_found e_tagline e_out e_used]. rewrite El. reflexivity. }
+          rewrite E1. rewrite rfold_skip by assumption.
+          assert (E2 : estep true tg (mkE true (Some o) ((out ++ [o]) ++ a) (used ++ [kof o])) c
+                       = mkE false None (((out ++ [o]) ++ a) ++ [c]) (used ++ [kof o])).
+          { unfold emplace_step. cbn [e_found e_tagline e_out e_used]. rewrite Hkc, El.
+            rewrite <- Hkc, Hs, Hp. reflexivity. }
+          rewrite E2.
+          destruct (IH None ((((out ++ [o]) ++ a) ++ [c])) (used ++ [kof o])) as [tl' [used' H]].
+          exists tl', used'. rewrite H. f_equal.
+          change (synced tg (BBlock o b c :: B)) with
+            ((match lookup (kof o) tg with Some a => o :: a ++ [c] | None => o :: b ++ [c] end) ++ synced tg B).
+          rewrite El. rewrite <- !app_assoc. cbn [app]. rewrite <- ?app_assoc. reflexivity.
+        * assert (E1 : estep true tg (mkE false tl out used) o = mkE false tl (out ++ [o]) used).
+          { rewrite rstep_none by assumption. reflexivity. }
+          rewrite E1. rewrite rfold_keep by assumption.
+          assert (E2 : estep true tg (mkE false tl ((out ++ [o]) ++ b) used) c = mkE false tl (((out ++ [o]) ++ b) ++ [c]) used).
+          { rewrite rstep_none by (rewrite Hkc; assumption). reflexivity. }
+          rewrite E2.
+          destruct (IH tl ((((out ++ [o]) ++ b) ++ [c])) used) as [tl' [used' H]].
+          exists tl', used'. rewrite H. f_equal.
+          change (synced tg (BBlock o b c :: B)) with
+            ((match lookup (kof o) tg with Some a => o :: a ++ [c] | None => o :: b ++ [c] end) ++ synced tg B).
+          rewrite El. rewrite <- !app_assoc. cbn [app]. rewrite <- ?app_assoc. reflexivity.
+  Qed.
+
+  (* C18 core *)
+  Theorem sync_spec tg B : keys_pfx tg -> Forall (wf_bitem tg) B ->
+    fst (emplace_lines keqb kof sub_of kpfx true tg (bflatten B)) = synced tg B.
+  Proof.
+    intros Hk Hwf. unfold emplace_lines.
+    destruct (sync_items tg B Hk Hwf None [] []) as [tl' [used' H]]. rewrite H. reflexivity.
+  Qed.
+
+  (* idempotence: the synchronised destination, re-read as items, is a fixed point of the synchronisation *)
+  Definition resync (tg : tags) (B : list bitem) : list bitem :=
+    map (fun it => match it with
+                   | BPlain l => BPlain l
+                   | BBlock o b c => BBlock o (match lookup (kof o) tg with Some a => a | None => b end) c
+                   end) B.
+
+  Lemma bflatten_resync tg B : bflatten (resync tg B) = synced tg B.
+  Proof.
+    unfold bflatten, synced, resync. induction B as [|[l|o b c] B IH]; cbn [map flat_map]; [reflexivity| |].
+    - rewrite IH. reflexivity.
+    - rewrite IH. destruct (lookup (kof o) tg); reflexivity.
+  Qed.
+
+  Lemma synced_resync tg B : synced tg (resync tg B) = synced tg B.
+  Proof.
+    unfold synced, resync. induction B as [|[l|o b c] B IH]; cbn [map flat_map]; [reflexivity| |].
+    - rewrite IH. reflexivity.
+    - rewrite IH. destruct (lookup (kof o) tg); reflexivity.
+  Qed.
+
+  Definition bodies_ok (tg : tags) : Prop :=
+    forall k a, lookup k tg = Some a -> forall l, In l a -> kpfx (kof l) = false.
+
+  Lemma wf_resync tg B : bodies_ok tg -> Forall (wf_bitem tg) B -> Forall (wf_bitem tg) (resync tg B).
+  Proof.
+    intros Hb Hwf. unfold resync. apply Forall_forall. intros it Hit. apply in_map_iff in Hit as [it0 [E Hin]].
+    rewrite Forall_forall in Hwf. specialize (Hwf it0 Hin). subst it.
+    destruct it0 as [l|o b c]; [exact Hwf|]. destruct Hwf as (H1 & H2 & H3). split; [assumption|]. split; [|assumption].
+    destruct (lookup (kof o) tg) as [a|] eqn:El; [apply (Hb _ _ El)|assumption].
+  Qed.
 End Proofs.
